@@ -90,3 +90,33 @@ Qed.
 
 Lemma dv_index_length h d sz i : length (dv_index h d sz i) = sz.
 Proof. unfold dv_index. rewrite map_length, seq_length. reflexivity. Qed.
+
+(* ------------------------------------------------------------ statements as used by Properties.v *)
+Lemma at_ok_iff_all h a i :
+  ((exists r, arr_at h a i = ORet r) <-> i < a_len a) /\
+  (arr_at h a i = OThrow <-> a_len a <= i) /\
+  (i < a_len a -> arr_at h a i = ORet (arr_index h a i)).
+Proof. split; [apply at_ok_iff_lemma | split; [apply at_throws_iff | apply at_is_index]]. Qed.
+
+Lemma iteration_exact_all h a :
+  length (arr_iter h a) = a_len a /\
+  (forall i, i < a_len a -> nth_error (arr_iter h a) i = Some (arr_index h a i)) /\
+  (forall i, a_len a <= i -> nth_error (arr_iter h a) i = None).
+Proof. split; [apply iter_length | split; intro i; [apply iter_nth | apply iter_beyond]]. Qed.
+
+(* the code before the repairs: concrete histories after which an owning wrapper reads freed storage *)
+Lemma ownedarray_copy_refuted_witness :
+  exists ops i o, nth_error (observe (run_old_owned (init 4 3) ops)) i = Some (Some o) /\
+                  o_kind o = KOwned /\ In RDangling (o_elems o).
+Proof.
+  exists [SrcSet 0 [1;2;3]%N; FromSrc 0 KOwned 0; CopyCtor 1 0; Destroy 0], 1.
+  eexists. vm_compute. split; [reflexivity | split; [reflexivity | left; reflexivity]].
+Qed.
+
+Lemma fixedarrayview_reassign_refuted_witness :
+  exists ops i o, nth_error (observe (run_old_fview (init 4 3) ops)) i = Some (Some o) /\
+                  o_kind o = KFView /\ In RDangling (o_elems o).
+Proof.
+  exists [SrcSet 0 [1;2;3]%N; SrcSet 1 [7;8]%N; FromSrc 0 KFixed 0; MkFView 1 0 1 2; AssignSrc 0 1], 1.
+  eexists. vm_compute. split; [reflexivity | split; [reflexivity | left; reflexivity]].
+Qed.
